@@ -411,6 +411,9 @@ def build_sites() -> List[Site]:
                 if mname == "none":
                     continue
                 yield ("new", k, mname), (lambda mk=mk, mm=mm: mk()(mm()))
+            # the wrapper types convert the `value` field: every value kind in that field
+            for v in P:
+                yield ("new", k, "value:" + v.kind), (lambda mk=mk, v=v: mk()(ct.MessageType({ct.StringType("value"): v.make()})))
 
     def fields_cases():
         def prim(names, values):
